@@ -5,8 +5,8 @@ and replayed on the real code on every run; the provable parts are the `…_part
 `Props.lean`.
 
 The oracle `wO` answers what the Go standard library answers on the witness inputs
-(`url.Parse("/a?token=…#%zz")` fails with `invalid URL escape "%zz"`; `net.ParseIP("fe80::1%eth0")`
-is nil) — the harness recomputes those answers when the line is replayed and reports
+(`url.Parse("/a?token=…#%zz")` fails with `invalid URL escape "%zz"`; `url.ParseQuery("token=…")` is
+`token ↦ […]`; `net.ParseIP("fe80::1%eth0")` is nil) — the harness recomputes those answers when the line is replayed and reports
 `table-mismatch` if they ever differ.
 -/
 import CaddyModel.C20.Spec
@@ -20,20 +20,22 @@ def wO : Oracles where
   parseIP := fun _ => none
   ipStr := fun _ => str "<nil>"
   parseURL := fun _ => none
+  parseQuery := fun s => if s = str "token=0123456789abcdef0123456789abcdef" then
+    [(str "token", [str "0123456789abcdef0123456789abcdef"])] else []
   cookies := fun _ => []
   reSpans := fun _ => []
 
 def wTok : Bytes := str "0123456789abcdef0123456789abcdef"
 
-/-- FULL STATEMENT (false): for every input string, a parameter named by an action of the query filter
-    never has its value emitted:
-      `∀ o acts s tok, hiddenBy acts p → s = pre ++ p ++ "=" ++ tok ++ post → occurs tok (queryStr o acts s) = false`.
-    Refuted: `url.Parse` rejects `/a?token=T#%zz` (the HTTP server accepts it as a request target) and
-    `processQueryString` then returns its input unchanged. -/
-theorem query_filter_full_fails :
+/-- Why the fallback was needed (non-vacuity of the `url.Parse`-fails branch of `Props.query_filter_hides_param`):
+    `url.Parse` rejects `/a?token=T#%zz` (the HTTP server accepts it as a request target); the OLD
+    `processQueryString` then returned its input unchanged, token included; the function as it is now cuts
+    the value at its first `?` and filters that query. -/
+theorem query_filter_old_code_fails :
     ∃ (o : Oracles) (acts : List Act) (s tok : Bytes),
       hiddenBy acts (str "token") = true ∧ s = str "/a?token=" ++ tok ++ str "#%zz" ∧
-      o.parseURL s = none ∧ queryStr o acts s = s ∧ occurs tok (queryStr o acts s) = true :=
+      o.parseURL s = none ∧ queryStrOld o acts s = s ∧ occurs tok (queryStrOld o acts s) = true ∧
+      queryStr o acts s = str "/a#%zz" ∧ occurs tok (queryStr o acts s) = false :=
   ⟨wO, [⟨.delete, str "token", []⟩], str "/a?token=" ++ wTok ++ str "#%zz", wTok, by decide⟩
 
 /-- what the standard library answers around `fe80::1%eth0`: `net.ParseIP` accepts `fe80::1` and rejects the
@@ -45,6 +47,7 @@ def wZ : Oracles where
   parseIP := fun s => if s = str "fe80::1" then some (.v6 [0xfe, 0x80, 0, 0, 0, 0, 0, 0, 0, 0, 0, 0, 0, 0, 0, 1]) else none
   ipStr := fun m => if m = some [0xfe, 0x80, 0, 0, 0, 0, 0, 0, 0, 0, 0, 0, 0, 0, 0, 0] then str "fe80::" else str "?"
   parseURL := fun _ => none
+  parseQuery := fun _ => []
   cookies := fun _ => []
   reSpans := fun _ => []
 
